@@ -33,7 +33,9 @@ func mkCanary(content []byte, isNil bool) *canary {
 		b[i] = 0xC5 ^ byte(i)
 	}
 	copy(b[32:], content)
-	return &canary{backing: b, snapshot: append([]byte{}, b...), s: b[32 : 32+len(content) : 32+len(content)]}
+	// two-index slice on purpose: the slice has spare capacity, so an append-style write past its
+	// length lands in the canary area instead of forcing a reallocation
+	return &canary{backing: b, snapshot: append([]byte{}, b...), s: b[32 : 32+len(content)]}
 }
 
 func (k *canary) intact() bool { return bytes.Equal(k.backing, k.snapshot) }
